@@ -2,7 +2,8 @@
     (Generated/WalletCodes.v): message limits, opcodes and the action magic of
     today's source are the ones of the model. *)
 From Coq Require Import List NArith ZArith Arith Bool String.
-From Tongo Require Import Lib.Bits Lib.Res Model.Wallet Generated.WalletCodes.
+From Tongo Require Import Lib.Bits Lib.Res Model.Wallet Generated.WalletCodes Model.TlbCore Model.WalletTransfer
+  Generated.TlbTypes.
 Import ListNotations.
 
 (** maxMessageNumber of every wallet type and the own limits of the payload
@@ -30,3 +31,9 @@ Example C14_gen_version_order :
                      "V5Beta"; "V5R1"; "HighLoadV1R1"; "HighLoadV1R2"; "HighLoadV2"; "HighLoadV2R1";
                      "HighLoadV2R2"]%string.
 Proof. reflexivity. Qed.
+
+(** the descriptor the transfer model encodes with is the one the translator
+    derives from today's tlb.Message (and its parts); C03_gen proves it well-formed *)
+Example C14_gen_message_descriptor :
+  d_tlb_Message = msg_ty /\ d_tlb_StateInit = stateinit_ty /\ d_tlb_CommonMsgInfo = msginfo_ty.
+Proof. repeat split; reflexivity. Qed.
